@@ -17,6 +17,56 @@ pub struct Case {
     pub program: Program,
     pub stack: bool,
     pub layouts: Vec<Layout>,
+    /// Some((n, m, origin)): the program is `bulk_program(n, m, origin)` (kept out of the saved
+    /// case: tens of thousands of lines)
+    #[serde(default)]
+    pub bulk: Option<(u32, u32, u8)>,
+}
+
+/// A program near the capacity of the address space that is made of statements, not of one
+/// directive: `n` register / immediate instructions, a labelled block of `m` words, a data word,
+/// a load of it and a HALT (`origin`: 0 none, 1 `.orig x0`, 2 `.orig x3000`).
+pub fn bulk_program(n: u32, m: u32, origin: u8) -> Program {
+    let mut lines = Vec::with_capacity(n as usize + 8);
+    match origin % 3 {
+        1 => lines.push(Line { label: None, body: Body::Orig(Lit::Hex(0, 0)) }),
+        2 => lines.push(Line { label: None, body: Body::Orig(Lit::Hex(0x3000, 0)) }),
+        _ => {}
+    }
+    lines.push(Line::stmt(Some("start"), Stmt::new(Op::Add, &[0, 0], Operand::Lit(Lit::Dec(1)))));
+    for i in 0..n {
+        let (a, b, c) = ((i % 8) as u8, (i / 8 % 8) as u8, (i / 64 % 8) as u8);
+        lines.push(Line::stmt(
+            None,
+            match i % 4 {
+                0 => Stmt::new(Op::Add, &[a, b], Operand::Lit(Lit::Dec((i % 32) as i32 - 16))),
+                1 => Stmt::new(Op::And, &[a, b], Operand::Reg(c)),
+                2 => Stmt::new(Op::Not, &[a, b], Operand::None),
+                _ => Stmt::new(Op::Ldr, &[a, b], Operand::Lit(Lit::Dec((i % 64) as i32 - 32))),
+            },
+        ));
+    }
+    lines.push(Line::stmt(Some("pad"), Stmt::new(Op::Blkw, &[], Operand::Lit(Lit::Hex(m as u16, 0)))));
+    lines.push(Line::stmt(Some("after"), Stmt::new(Op::Fill, &[], Operand::Lit(Lit::Hex(0xBEEF, 0)))));
+    lines.push(Line::stmt(Some("tail"), Stmt::new(Op::Ld, &[1], Operand::Label("after".into()))));
+    lines.push(Line::stmt(None, Stmt::simple(Op::Halt)));
+    Program { lines }
+}
+
+/// The (instructions, block, origin) grid of the bulk programs: statement counts from none to
+/// 65,000, the block sized so that the whole has 65,535 words minus a small slack.
+pub fn bulk_grid(thorough: bool) -> Vec<(u32, u32, u8)> {
+    let ns: &[u32] = if thorough { &[0, 100, 5000, 10_000, 16_384, 20_000, 22_000, 25_000, 30_000, 32_768, 40_000, 50_000, 60_000, 65_000, 65_500] } else { &[0, 5000, 16_384, 22_000, 32_768, 43_000, 60_000, 65_500] };
+    let slacks: &[u32] = if thorough { &[0, 1, 2, 17, 1000, 20_000] } else { &[0, 1, 30] };
+    let mut out = Vec::new();
+    for (i, n) in ns.iter().enumerate() {
+        for (j, slack) in slacks.iter().enumerate() {
+            // start + n + pad(m) + after + tail + halt = n + m + 4 words
+            let m = 65_535u32.saturating_sub(n + 4 + slack);
+            out.push((*n, m, ((i + j) % 3) as u8));
+        }
+    }
+    out
 }
 
 fn nontrivial(p: &Program, img: &RefImage) -> bool {
@@ -60,6 +110,18 @@ fn op_name(p: &Program, img: &RefImage, word: usize) -> String {
 }
 
 pub fn judge_case(c: &Case) -> Obs {
+    if let Some((n, m, origin)) = c.bulk {
+        let full = Case { program: bulk_program(n, m, origin), stack: c.stack, layouts: c.layouts.clone(), bulk: None };
+        let mut o = judge_case(&full);
+        o.key = hash_of(&("bulk", n, m, origin, c.stack));
+        let clip = |t: &str| if t.len() > 1500 { format!("{} ...\n[{} statements, then `pad .blkw x{m:X}`, `after .fill xBEEF`, `tail ld r1 after`, `halt`]", t.chars().take(600).collect::<String>(), n) } else { t.to_string() };
+        o.show = o.show.map(|t| clip(&t));
+        if let Some((sig, msg)) = o.fail.take() {
+            o.fail = Some((sig, clip(&msg)));
+        }
+        o.label("statement-heavy-program-near-capacity");
+        return o;
+    }
     let mut obs = Obs::default();
     let img = match judge(&c.program, c.stack) {
         Verdict::Accept(img) => img,
@@ -163,6 +225,7 @@ pub fn short_loc(loc: &str) -> String {
 
 fn case_strategy(max_lines: usize, nlayouts: usize) -> impl Strategy<Value = Case> {
     (raw_program(max_lines), prop::collection::vec(layout(), nlayouts)).prop_map(|(raw, layouts)| Case {
+        bulk: None,
         program: build_program(&raw),
         stack: raw.stack,
         layouts,
@@ -180,7 +243,7 @@ fn sweep(ctx: &Ctx, rep: &mut Report) {
             return;
         }
         let lay = Layout { seed: n, style: (n % 3) as u8, end: n % 5 == 0 };
-        let case = Case { program: Program { lines: vec![Line { label: None, body: Body::Stmt(stmt) }] }, stack, layouts: vec![lay] };
+        let case = Case { program: Program { lines: vec![Line { label: None, body: Body::Stmt(stmt) }] }, stack, layouts: vec![lay], bulk: None };
         judge_one(ctx, rep, &case, &mut |c| {
             let mut o = judge_case(c);
             o.label("sweep");
@@ -271,7 +334,7 @@ fn long_tokens(ctx: &Ctx, rep: &mut Report) {
         if !ctx.mine(n) {
             continue;
         }
-        let case = Case { program, stack: false, layouts: vec![Layout { seed: n, style: (n % 3) as u8, end: n % 2 == 0 }] };
+        let case = Case { program, stack: false, layouts: vec![Layout { seed: n, style: (n % 3) as u8, end: n % 2 == 0 }], bulk: None };
         judge_one(ctx, rep, &case, &mut |c| {
             let mut o = judge_case(c);
             o.label("token-longer-than-65535-bytes");
@@ -303,6 +366,15 @@ impl Prop for C01 {
     fn run_worker(&self, ctx: &Ctx, rep: &mut Report) {
         sweep(ctx, rep);
         long_tokens(ctx, rep);
+        let grid = bulk_grid(ctx.tier.pick(false, true));
+        for (i, b) in grid.iter().enumerate() {
+            if !ctx.mine(i as u64 + 1) {
+                continue;
+            }
+            let case = Case { program: Program { lines: vec![] }, stack: i % 2 == 1, layouts: vec![Layout { seed: i as u64, style: (i % 3) as u8, end: i % 2 == 0 }], bulk: Some(*b) };
+            judge_one(ctx, rep, &case, &mut |c| judge_case(c));
+        }
+        rep.exhaustive.push(format!("{} statement-heavy programs near the capacity of the address space (0..65,500 instructions followed by a block that brings the total to 65,535 words minus a small slack)", grid.len()));
         let n = ctx.share(ctx.tier.pick(40_000, 400_000));
         let nl = ctx.tier.pick(2, 3);
         drive(ctx, rep, "programs", case_strategy(25, nl), n, &mut |c: &Case| judge_case(c));
